@@ -191,6 +191,7 @@ func runEngines(es engineSet, tier string, sink *report.Sink) (errs []string) {
 				errs = append(errs, "variants: "+err.Error())
 			}
 			m.ReportModes(sink, xs)
+			m.ReportCapture(sink, xs, tier == "thorough")
 		}
 		if !es.noRegen {
 			ys, yerr := regenInstances(repo.Dir, tier, sink)
@@ -200,6 +201,9 @@ func runEngines(es engineSet, tier string, sink *report.Sink) (errs []string) {
 			ins = append(ins, ys...)
 		}
 		sink.SetFact("variants.expanded", len(ins))
+		if os.Getenv("CFFVERIF_DUMPCAP") != "" {
+			dumpCapture(ins)
+		}
 		gen.Run(ins, sink)
 	}
 	return errs
@@ -355,4 +359,48 @@ func cmdCheck(args []string) int {
 	expl := fmt.Sprintf("Static rules %s decided on the source of %s as loaded by go/packages (types resolved, no code executed); see DESIGN.md §4/§5 for what each rule is a necessary condition of and what the property check does not cover.", strings.Join(ids, ", "), load.RepoDir())
 	out := report.Finish(verifDir(), prop, *tier, seed, rules, sink, expl, []string{"go/types and go/parser are correct", "the hand argument from rule premises to the behavioural property (DESIGN §5) is not machine-checked"}, start, errs)
 	return out.ExitCode
+}
+
+// dumpCapture prints, per instance kind, origin and site class, the union of the generated identifiers in scope.
+func dumpCapture(ins []*gen.Instance) {
+	u := map[string]map[string]string{}
+	for _, in := range ins {
+		for _, st := range gen.CaptureSites(in) {
+			k := in.Origin + " " + in.Kind + " " + st.Class
+			if u[k] == nil {
+				u[k] = map[string]string{}
+			}
+			for _, v := range st.Visible {
+				if _, ok := u[k][v]; !ok {
+					u[k][v] = st.What + " @ " + st.Pos
+				}
+			}
+		}
+	}
+	pre := map[string]map[string]bool{}
+	for _, in := range ins {
+		k := in.Origin + " " + in.Kind
+		if pre[k] == nil {
+			pre[k] = map[string]bool{}
+		}
+		for n := range gen.PredeclaredUsed(in) {
+			pre[k][n] = true
+		}
+	}
+	for k, m := range pre {
+		var ns []string
+		for n := range m {
+			ns = append(ns, n)
+		}
+		sort.Strings(ns)
+		fmt.Fprintf(os.Stderr, "PREDECLARED %s: %s\n", k, strings.Join(ns, " "))
+	}
+	for k, m := range u {
+		var ns []string
+		for n := range m {
+			ns = append(ns, n)
+		}
+		sort.Strings(ns)
+		fmt.Fprintf(os.Stderr, "CAPTURE %s: %s\n", k, strings.Join(ns, " "))
+	}
 }
